@@ -1000,7 +1000,14 @@ impl<'a> Parse<'a> for Use<'a> {
         parse_token(lexer, Token::Dot)?;
         parse_token(lexer, Token::OpenBrace)?;
         let items = parse_delimited(lexer, Token::CloseBrace, true)?;
-        parse_token(lexer, Token::CloseBrace)?;
+        let close = parse_token(lexer, Token::CloseBrace)?;
+        if items.is_empty() {
+            return Err(Error::EmptyType {
+                ty: "use",
+                kind: "item",
+                span: close,
+            });
+        }
         parse_token(lexer, Token::Semicolon)?;
         Ok(Self { docs, path, items })
     }
@@ -1341,7 +1348,14 @@ impl<'a> Parse<'a> for WorldInclude<'a> {
         let with = parse_optional(lexer, Token::WithKeyword, |lexer| {
             parse_token(lexer, Token::OpenBrace)?;
             let items = parse_delimited(lexer, Token::CloseBrace, true)?;
-            parse_token(lexer, Token::CloseBrace)?;
+            let close = parse_token(lexer, Token::CloseBrace)?;
+            if items.is_empty() {
+                return Err(Error::EmptyType {
+                    ty: "include",
+                    kind: "item",
+                    span: close,
+                });
+            }
             Ok(items)
         })?
         .unwrap_or_default();
